@@ -542,6 +542,14 @@ def src_expr(e, lay, need_suffix=False, top=True):
         # a literal may stay naked only next to a plain variable of the same type
         ls = paren_if(l, src_expr(l, lay, True, False))
         rs = paren_if(rr, src_expr(rr, lay, not (rr[0] == "lit" and l[0] == "var"), False))
+        # leave out the parentheses the grammar makes redundant: + and - chain to the left over
+        # * / % chains (which chain to the left too); one and the same bitwise operator chains
+        MUL, ADD = ("*", "/", "%"), ("+", "-")
+        if l[0] == "bin" and r.random() < 0.6:
+            if (e[1] in ADD and l[1] in ADD + MUL) or (e[1] in MUL and l[1] in MUL) or (e[1] in ("&", "|", "^") and l[1] == e[1]):
+                ls = src_expr(l, lay, True, False)
+        if rr[0] == "bin" and e[1] in ADD and rr[1] in MUL and r.random() < 0.6:
+            rs = src_expr(rr, lay, True, False)
         if not lay.plain and r.random() < 0.08 and l[0] in ("var", "lit") and not (l[0] == "lit" and l[2] < 0): ls = "(" + ls + ")"
         return "%s%s%s%s%s" % (ls, lay.ws(), e[1], lay.ws(), rs)
     if k == "un":
